@@ -17,7 +17,7 @@ Assertion: if the call raises, the raw object store (all groups, links, attrs,
 dataset shapes and contents) is identical to the snapshot taken before the call,
 and the same call with valid arguments then succeeds.
 """
-from vf.ob import Ob, assume
+from vf.ob import Ob, assume, untraced
 from vf import models, fakeh5, nixfake
 
 PROPERTY = "C12"
@@ -38,6 +38,11 @@ def _pick(tbl, i):
 
 
 def _fixture():
+    with untraced():
+        return _fixture_concrete()
+
+
+def _fixture_concrete():
     import nixio
     nixfake.begin()
     f = nixio.File(PATH, "w")
